@@ -8,6 +8,57 @@ import GqlVerif.Generated.C12
 namespace GqlVerif.Ties.C12
 open GqlVerif.Generated.C12
 
+theorem filterSkipEventGuards_tie : filterSkipEventGuards =
+    ["if f == nil",
+     "if f.And != nil",
+     "range _, filter := f.And",
+     "if err != nil",
+     "if skip",
+     "if f.Or != nil",
+     "range _, filter := f.Or",
+     "if err != nil",
+     "if !skip",
+     "if f.Not != nil",
+     "if err != nil",
+     "if f.In != nil"] := by decide +kernel
+
+theorem fieldFilterSkipEventGuards_tie : fieldFilterSkipEventGuards =
+    ["if f == nil",
+     "if _err != nil",
+     "if expectedDataType == jsonparser.String",
+     "if err != nil",
+     "if err != nil",
+     "range i, _ := f.Values",
+     "f.Values[i]",
+     "if err != nil",
+     "if !bytes.Contains(actualRawBytes, literal.LBRACK) || !bytes.Contains(actualRawBytes, literal.RBRACK)",
+     "if len(f.Values[i].Segments) == 1",
+     "f.Values[i]",
+     "f.Values[i].Segments[0]",
+     "f.Values[i]",
+     "f.Values[i].Segments[0]",
+     "f.Values[i]",
+     "if value == nil",
+     "f.Values[i].Segments[0]",
+     "f.Values[i]",
+     "if err != nil",
+     "if valueType != jsonparser.NotExist && expectedDataType != valueType",
+     "if expectedDataType == valueType",
+     "if bytes.Equal(plain, actualRawBytes)",
+     "if bytes.Equal(stringified, actualRawBytes)",
+     "if bytes.Equal(plain, actualRawBytes)",
+     "if matches == nil",
+     "if bytes.Equal(plain, actualRawBytes)",
+     "if len(matches) != 1 || len(matches[0]) != 2",
+     "matches[0]",
+     "matches[0][0]",
+     "matches[0]",
+     "if expectedDataType != dataType",
+     "matches[0][0]",
+     "matches[0]",
+     "if bytes.Equal(expected, replaced)",
+     "if arrayMatch"] := by decide +kernel
+
 theorem subDone_tie : subDone =
     ["s.writeMu.Lock",
      "defer:s.writeMu.Unlock",
